@@ -269,6 +269,81 @@ theorem insertAll_spec (t : HT α) (hk : α → Nat) (xs : List α) (hw : WF t h
     simp only [List.reverse_cons, List.append_assoc, List.singleton_append]
     exact List.Perm.append_left _ this
 
+/-! ### a record leaves its chain (`find_entry` at `links == 0`, `next_entry`)
+
+The C unlinks `le` from the doubly linked chain of its bucket; on the list view of a chain that is `erase`.
+(The pointer surgery itself — `previous`/`next` — is below this model; the `lnk` engine covers it.) -/
+
+def eraseAt [BEq α] (bk : Nat → List α) (i : Nat) (x : α) : Nat → List α :=
+  fun j => if j = i then (bk j).erase x else bk j
+
+/-- Unlink `x` from bucket `i`. -/
+def HT.remove [BEq α] (t : HT α) (i : Nat) (x : α) : HT α :=
+  { t with bk := eraseAt t.bk i x, n := t.n - 1 }
+
+theorem flatUpTo_eraseAt_ge [BEq α] (bk : Nat → List α) (i : Nat) (x : α) (n : Nat) (h : n ≤ i) :
+    flatUpTo (eraseAt bk i x) n = flatUpTo bk n := by
+  induction n with
+  | zero => rfl
+  | succ n ih =>
+    have hne : n ≠ i := by omega
+    simp only [flatUpTo, ih (by omega), eraseAt, hne, if_false]
+
+theorem flatUpTo_eraseAt_perm [BEq α] [LawfulBEq α] (bk : Nat → List α) (i : Nat) (x : α) (n : Nat)
+    (h : i < n) (hx : x ∈ bk i) : (x :: flatUpTo (eraseAt bk i x) n).Perm (flatUpTo bk n) := by
+  induction n with
+  | zero => omega
+  | succ n ih =>
+    by_cases hin : i = n
+    · subst hin
+      simp only [flatUpTo, flatUpTo_eraseAt_ge bk i x i (Nat.le_refl _), eraseAt, if_true]
+      exact (List.perm_middle.symm).trans (List.Perm.append_left _ (List.perm_cons_erase hx).symm)
+    · have hne : n ≠ i := fun e => hin e.symm
+      simp only [flatUpTo, eraseAt, hne, if_false]
+      have := ih (by omega)
+      exact (this.append_right (bk n))
+
+/-- Unlinking removes exactly that record: the rest of the table is untouched. -/
+theorem remove_perm [BEq α] [LawfulBEq α] (t : HT α) (hk : α → Nat) (i : Nat) (x : α) (hw : WF t hk)
+    (hx : x ∈ t.bk i) : (x :: (t.remove i x).flat).Perm t.flat := by
+  obtain ⟨k, hk2⟩ := hw.pow
+  have hi : i < t.nb := by
+    have := hw.place i x hx
+    rw [← this, hk2]; exact idx_lt k (hk x)
+  exact flatUpTo_eraseAt_perm t.bk i x t.nb hi hx
+
+theorem wf_remove [BEq α] [LawfulBEq α] (t : HT α) (hk : α → Nat) (i : Nat) (x : α) (hw : WF t hk) :
+    WF (t.remove i x) hk := by
+  refine ⟨hw.pow, ?_⟩
+  intro j y hy
+  simp only [HT.remove, eraseAt] at hy
+  split at hy
+  · exact hw.place j y (List.mem_of_mem_erase hy)
+  · exact hw.place j y hy
+
+/-- Every history of insertions and removals (removals of records that are present, from the bucket the walk
+found them in): the placement invariant holds throughout, so every remaining record stays reachable. -/
+inductive BOp (α : Type) | ins (x : α) | del (x : α)
+
+def runB [BEq α] (t : HT α) (hk : α → Nat) : List (BOp α) → HT α
+  | [] => t
+  | .ins x :: ops => runB (t.insert hk x) hk ops
+  | .del x :: ops => runB (t.remove (idx t.nb (hk x)) x) hk ops
+
+theorem wf_runB [BEq α] [LawfulBEq α] (t : HT α) (hk : α → Nat) (ops : List (BOp α)) (hw : WF t hk) :
+    WF (runB t hk ops) hk := by
+  induction ops generalizing t with
+  | nil => exact hw
+  | cons op ops ih =>
+    cases op with
+    | ins x => exact ih _ (wf_insert t hk x hw)
+    | del x => exact ih _ (wf_remove t hk _ x hw)
+
+theorem runB_reachable [BEq α] [LawfulBEq α] (t : HT α) (hk : α → Nat) (p : α → Bool) (ops : List (BOp α))
+    (hw : WF t hk) (x : α) (hx : x ∈ (runB t hk ops).flat) (hp : p x = true) :
+    ((runB t hk ops).find hk p (hk x)).isSome = true :=
+  find_complete _ hk p x (wf_runB t hk ops hw) hx hp
+
 /-- The table `archive_entry_linkresolver_new` builds: 1024 empty chains. -/
 def init1024 : HT α := { nb := 1024, bk := fun _ => [], n := 0 }
 
